@@ -571,7 +571,9 @@ Proof.
     apply (inv_bind (Forall G)); [apply desc_lift_inv; exact Hn|]. intros from Hfrom.
     apply (inv_bind (Forall G)).
     + apply flat_map_m_inv; [intros; apply Hs; assumption|exact Hfrom].
-    + intros collected Hc. apply Ht; assumption.
+    + intros collected Hc. apply Ht; [assumption|].
+      apply Forall_forall. intros x Hx. rewrite Forall_forall in Hc. apply Hc.
+      apply (step_dedup_incl doc collected [] x Hx).
   - (* StepTest *) intros axis test preds Hpreds Hok n Gn. split_ok Hok.
     destruct (Hpreds Hok) as [_ Hpr]. rewrite eval_step_test. intros c.
     destruct (H_axis axis n Hok0 Gn) as [nodes [-> Hnodes]]. cbn [bind].
